@@ -56,7 +56,15 @@ def gen_new(rng, nrows=None, nfields=None):
     n = rng.choice([0, 1, 2, 3, 3, 5, 8, 13, 20, 50]) if nrows is None else nrows
     k = rng.randrange(1, 6) if nfields is None else nfields
     names = rng.sample(range(len(UNIVERSE)), k)
-    return {'op': 'new', 'cols': [[nm, gen_col(rng, n)] for nm in names], 'nocopy': rng.random() < 0.3}
+    cols = [[nm, gen_col(rng, n)] for nm in names]
+    if k > 1 and rng.random() < 0.08:
+        # constructor with field arrays of different lengths: 1 vs n, n vs 1, m vs n (must raise for copy=True and copy=False)
+        i = rng.randrange(k)
+        m = rng.choice([1, 1, n + 1, max(0, n - 1), n + 3])
+        if m == n:
+            m = n + 1
+        cols[i][1] = gen_col(rng, m, cols[i][1]['dt'])
+    return {'op': 'new', 'cols': cols, 'nocopy': rng.random() < 0.3}
 
 
 def ref_legal(tabs, op):
@@ -80,7 +88,8 @@ def gen_sequence(rng, length):
         ops.append(op)
         sf.ref_apply(tabs, op)
 
-    emit(gen_new(rng))
+    while not tabs:
+        emit(gen_new(rng))          # (a constructor call with unequal lengths raises and creates nothing)
     if rng.random() < 0.6:
         # a second table with (mostly) the same fields, so append / set_selection have a partner
         cols = [[UNIVERSE.index(nm), gen_col(rng, rng.choice([0, 1, 2, 4]), None if rng.random() < 0.5 else sf.dtname(a.dtype))]
@@ -105,7 +114,7 @@ def gen_sequence(rng, length):
         newname = lambda: rng.choice(have if (bad and have) or not other else other)   # noqa: E731
         k = rng.choice(['append', 'append', 'appendField', 'setItem', 'setItem', 'removeField', 'rename', 'rename',
                         'tidyUp', 'getSel', 'getSel', 'setSel', 'setSel', 'sortBy', 'sortBy', 'copy', 'setDtype',
-                        'convert', 'indices', 'indices', 'new', 'appendFieldFrom', 'setItemFrom', 'setItemFrom', 'newShared'])
+                        'convert', 'indices', 'indices', 'new', 'appendFieldFrom', 'setItemFrom', 'setItemFrom', 'newShared', 'freeze'])
         if k in ('getSel', 'copy', 'new', 'newShared') and len(tabs) >= 6:
             k = 'indices'
         if k == 'append':
@@ -118,7 +127,9 @@ def gen_sequence(rng, length):
                 continue
             emit({'op': 'append', 'c': c, 'd': d})
         elif k == 'appendField':
-            emit({'op': 'appendField', 'c': c, 'n': newname(), 'col': gen_col(rng, t.n + (1 if bad and rng.random() < 0.5 else 0))})
+            fault = rng.choice(['name', 'length', 'length', 'both']) if bad else None
+            nm_ = rng.choice(have) if (fault in ('name', 'both') and have) else (rng.choice(other) if other else rng.choice(have))
+            emit({'op': 'appendField', 'c': c, 'n': nm_, 'col': gen_col(rng, t.n + (rng.choice([1, 2]) if fault in ('length', 'both') else 0))})
         elif k == 'setItem':
             emit({'op': 'setItem', 'c': c, 'n': rng.choice(have + other[:1]) if have else newname(),
                   'col': gen_col(rng, t.n + (1 if bad else 0))})
@@ -173,10 +184,16 @@ def gen_sequence(rng, length):
             if not cand:
                 continue
             d, m = rng.choice(cand)
-            n = newname() if k == 'appendFieldFrom' else (rng.choice(have + other[:1]) if have else newname())
+            if k == 'appendFieldFrom':
+                n = rng.choice(have) if (bad and have and rng.random() < 0.4) else (rng.choice(other) if other else rng.choice(have))
+            else:
+                n = rng.choice(have + other[:1]) if have else newname()
             emit({'op': k, 'c': c, 'n': n, 'd': d, 'm': m})
         elif k == 'newShared':
             emit({'op': 'newShared', 'd': c, 'm': anyname()})
+        elif k == 'freeze':
+            if have:
+                emit({'op': 'freeze', 'd': c, 'm': rng.choice(have)})     # this column becomes a read-only array
     return ops
 
 
@@ -204,6 +221,26 @@ EXH_ALPHABET = [
 ]
 
 
+# every operation kind, failing variants included (used to depth 3 / 4)
+EXH_FULL = EXH_ALPHABET + [
+    {'op': 'setDtype', 'c': 0, 'n': 0, 'dt': 'f32'},
+    {'op': 'setDtype', 'c': 0, 'n': 0, 'dt': 'i64'},                    # same dtype: astype(copy=False) keeps the array object
+    {'op': 'tidyUp', 'c': 0, 'keep': [0, 2]},
+    {'op': 'convert', 'c': 0, 'convs': [['f32', 'f64'], ['i64', 'i16']], 'exc': []},
+    {'op': 'getSel', 'c': 0, 'sel': {'k': 'm', 'v': [1, 0]}},           # mask: raises unless the table has two rows
+    {'op': 'appendField', 'c': 0, 'n': 3, 'col': {'dt': 'b', 'v': [1, 0]}},
+    {'op': 'copy', 'c': 0, 'keep': None},
+    {'op': 'freeze', 'd': 0, 'm': 0},                                   # column 0 becomes a read-only array
+    {'op': 'new', 'cols': [[0, {'dt': 'i64', 'v': [1, 2, 3]}], [1, {'dt': 'f32', 'v': [4]}]]},   # unequal lengths: raises
+    {'op': 'sortBy', 'c': 0, 'n': 5},                                   # missing key field: raises
+]
+# a second start: three rows with a bool and a float64 column, and an empty partner
+EXH_INIT_B = [
+    {'op': 'new', 'cols': [[0, {'dt': 'f64', 'v': [2, 1, 2]}], [1, {'dt': 'b', 'v': [1, 0, 1]}]], 'nocopy': True},
+    {'op': 'new', 'cols': [[0, {'dt': 'i16', 'v': []}], [1, {'dt': 'f32', 'v': []}]]},
+]
+
+
 def resolve(op, nconts):
     if op.get('d', 0) == -1:
         op = dict(op)
@@ -218,61 +255,91 @@ def _bytes(arr):
     return (str(arr.dtype), arr.shape, np.ascontiguousarray(arr).tobytes())
 
 
+STRUCTURAL = ('new', 'getSel', 'copy', 'newShared')
+
+
 def table_check(case):
     """None | (mode, opname, step, text)"""
-    conts, tabs, held = [], [], []
+    conts, tabs, rows, held = [], [], [], []
     for k, op in enumerate(case['ops']):
         try:
             op = resolve(op, len(conts))
             if not sf.legal(conts, op):
                 return None      # outside the model (see store_fixtures.legal)
-            # arrays the caller legitimately holds: handed in / kept earlier, and the columns of all containers
+            # arrays the caller legitimately holds: handed in / kept earlier, and the columns of all other containers
             before = [('caller-held array #%d' % i, a, _bytes(a)) for i, a in enumerate(held)]
-            tgt = op.get('c') if op['op'] not in ('getSel', 'copy', 'new', 'newShared') else None
+            tgt = op.get('c') if op['op'] not in STRUCTURAL + ('freeze',) else None
             tgt_arrays = sf.cont_arrays(conts[tgt]) if tgt is not None and 0 <= tgt < len(conts) else []
+            order_before = list(conts[tgt].field_name_list) if tgt is not None and 0 <= tgt < len(conts) else None
             for ci, a in enumerate(conts):
                 if ci != tgt:
                     before += [('column %r of container %d' % (n, ci), a[n], _bytes(a[n])) for n in a.field_name_list if n in a]
+            blocked = (op['op'] == 'setSel' and 0 <= op['c'] < len(tabs)
+                       and any(tabs[op['c']].cells[nm].ro for nm in tabs[op['c']].names))
             ri = sf.impl_apply(conts, op, held)
             impl_perm = ri[1][1] if (op['op'] == 'sortBy' and ri[0] == 'ok') else None
             rr = sf.ref_apply(tabs, op, impl_out=impl_perm)
+            rw = sf.row_apply(rows, op, impl_out=impl_perm, blocked=blocked, impl_ok=(ri[0] == 'ok'))
+            if op['op'] == 'setSel' and rr[0] == 'ok':
+                for ci in sf.written_shared(tabs, op['c']):
+                    rows[ci] = None      # the row store has value semantics: these tables are no longer comparable
         except (IndexError, AssertionError):
             return None          # malformed (shrunk) case
+        except KeyError:
+            if op['op'] == 'freeze':
+                return None
+            raise
         name = op['op']
         where = 'step %d (%s)' % (k, sf.op_line(op, impl_perm))
         # every other table and every caller-held array is byte-identical unless the operation writes through
         for what, arr, b in before:
             if _bytes(arr) != b:
-                if name == 'setSel' and sf.shares([arr], tgt_arrays):
+                if name == 'setSel' and ri[0] == 'ok' and sf.shares([arr], tgt_arrays):
                     continue     # set_selection is documented to assign into the arrays of its target
-                return ('modified-in-place', name, k, '%s: %s was modified in place (%r -> %r) although %s rebinds its columns' % (
-                    where, what, np.frombuffer(b[2], dtype=arr.dtype).tolist()[:8], arr.tolist()[:8], name))
+                return ('modified-in-place', name, k, '%s: %s was modified in place (%r -> %r) although %s %s' % (
+                    where, what, np.frombuffer(b[2], dtype=arr.dtype).tolist()[:8], arr.tolist()[:8], name,
+                    'raised' if ri[0] == 'err' else 'rebinds its columns'))
         if rr == ('err', 'perm'):
             return ('bad-permutation', name, k, '%s: sort_by_field returned %r which is not a sorting permutation of the key column' % (where, impl_perm))
-        if ri[0] != rr[0] or (ri[0] == 'err' and ri[1] != rr[1]):
-            mode = ('raises-' + ri[1]) if ri[0] == 'err' else 'no-raise'
-            return (mode, name, k, '%s: the container answers %r, a plain table answers %r' % (where, ri, rr))
-        if ri[0] == 'ok' and ri[1] != rr[1]:
-            return ('wrong-result', name, k, '%s: returned %r, a plain table returns %r' % (where, ri[1], rr[1]))
-        for ci, (a, t) in enumerate(zip(conts, tabs)):
-            got, want = sf.snap(a), t.snap()
-            d = sf.snap_diff(got, want)
-            if d:
-                mode = sf.diff_mode(d, got)
-                if ri[0] == 'err':
-                    mode = 'changed-on-error/' + mode
-                return (mode, name, k, '%s: container %d differs from the plain table in %r after %s: container %r, table %r' % (
-                    where, ci, d, 'the failed operation' if ri[0] == 'err' else 'the operation', got[d], want[d]))
-        # memory sharing: exactly the slots that were bound to one handed-in array object
-        sh = sorted(sorted(p) for p in sf.sharing(conts))
+        for refname, r_ in (('the table of array cells', rr), ('the row store (numpy structured array)', rw)):
+            if r_ is None:
+                continue
+            if ri[0] != r_[0] or (ri[0] == 'err' and not sf.err_match(ri[1], r_[1])):
+                mode = ('raises-' + ri[1]) if ri[0] == 'err' else 'no-raise'
+                return (mode, name, k, '%s: the container answers %r, %s answers %r' % (where, ri, refname, r_))
+            if ri[0] == 'ok' and ri[1] != r_[1]:
+                return ('wrong-result', name, k, '%s: returned %r, %s returns %r' % (where, ri[1], refname, r_[1]))
+        for ci, a in enumerate(conts):
+            got = sf.snap(a)
+            for refname, want in (('the table of array cells', tabs[ci].snap()),
+                                  ('the row store (numpy structured array)', rows[ci].snap() if rows[ci] is not None else None)):
+                if want is None:
+                    continue
+                d = sf.snap_diff(got, want)
+                if d:
+                    mode = sf.diff_mode(d, got)
+                    if ri[0] == 'err':
+                        mode = 'changed-on-error/' + mode
+                    return (mode, name, k, '%s: container %d differs from %s in %r after %s: container %r, reference %r' % (
+                        where, ci, refname, d, 'the failed operation' if ri[0] == 'err' else 'the operation', got[d], want[d]))
+        # field order: operations that do not rename keep the relative order of the surviving fields
+        if order_before is not None and name != 'rename':
+            now = [n for n in conts[tgt].field_name_list if n in order_before]
+            was = [n for n in order_before if n in now]
+            if now != was:
+                return ('field-order', name, k, '%s: the relative order of the fields changed from %r to %r' % (where, was, now))
+        # memory sharing: never more than the slots that were bound to one handed-in array object
+        sh = set(tuple(sorted([tuple(p[0]), tuple(p[1])])) for p in sf.sharing(conts))
         cells = {}
         for ci, t in enumerate(tabs):
             for n in t.names:
                 if t.cells[n].a.size:
                     cells.setdefault(id(t.cells[n]), []).append([ci, n])
-        want_sh = sorted(sorted([v[i], v[j]]) for v in cells.values() for i in range(len(v)) for j in range(i + 1, len(v)))
+        want_sh = _pairs(cells.values())
+        if not sh <= want_sh:
+            return ('shared-memory', name, k, '%s: columns share memory that were never bound to one array: %r' % (where, sorted(sh - want_sh)[:3]))
         if sh != want_sh:
-            return ('shared-memory', name, k, '%s: columns sharing memory: %r, expected from the arrays handed in: %r' % (where, sh[:3], want_sh[:3]))
+            DIAG['less_sharing_than_model'] += 1
     return None
 
 
@@ -317,7 +384,7 @@ def corr_prepare(ops):
 
 
 def corr_eval(lines, recs, out):
-    taint = [False]
+    taint = set()
     for k, ((op, ri, snaps, share), ans) in enumerate(zip(recs, out[1:])):
         d = compare_step(op, ri, snaps, share, ans, taint)
         if d:
@@ -331,42 +398,68 @@ def corr_sequence(ctx, ops):
     return corr_eval(lines, recs, ctx.driver('C16', lines))
 
 
+DIAG = {'less_sharing_than_model': 0, 'double_fault_other_exception': 0}
+
+
+def _pairs(groups):
+    return set(tuple(sorted([tuple(v[i]), tuple(v[j])])) for v in groups for i in range(len(v)) for j in range(i + 1, len(v)))
+
+
 def compare_step(op, ri, snaps, share, ans, taint=None):
-    """taint: one-element list, set once a set_selection wrote through a shared location: from then on the plain-table
-    layer (handed-in arrays by value) is no longer the reference, only the heap layer is"""
-    taint = taint if taint is not None else [False]
+    """taint: set of container ids whose plain-table reading is no longer the reference (a set_selection wrote through a
+    location bound in more than one slot of / derived into this container); the heap layer always is."""
+    taint = taint if taint is not None else set()
+    k = op['op']
     if ans == 'bad-op':
         return 'driver does not understand the request'
+    if k == 'freeze':
+        return None if ans == 'ok' else 'freeze: model answers %r' % ans
     head, hd, td = ans.split(' | ')
-    hres, tres = [sf.parse_res(x.split('=', 1)[1], op['op']) for x in head.split(' ')]
-    ri = tuple(ri)
-    for nm, mr in (('heap model', hres),):
-        if (ri[0], list(ri[1]) if ri[0] == 'ok' else ri[1]) != (mr[0], mr[1]):
-            # the heap model returns the cached index array as it is; same values
-            return 'implementation answers %r, %s answers %r' % (ri, nm, mr)
+    hres, tres = [sf.parse_res(x.split('=', 1)[1], k) for x in head.split(' ')]
+    ri = (ri[0], list(ri[1]) if ri[0] == 'ok' else ri[1])
     hs, locs = sf.parse_H(hd)
     ts = sf.parse_T(td)
-    if len(hs) != len(snaps) or len(ts) != len(snaps):
-        return 'number of containers: implementation %d, heap model %d, table model %d' % (len(snaps), len(hs), len(ts))
     byloc = {}
     for ci, nm, loc in locs:
         byloc.setdefault(loc, []).append([ci, nm])
-    if op['op'] == 'setSel' and any(len(v) > 1 for v in byloc.values()):
-        taint[0] = True
-    shared = taint[0]
+    # ---- which containers the plain tables still describe
+    src = [op[x] for x in ('c', 'd') if isinstance(op.get(x), int)]
+    dirty_in = any(i in taint for i in src)
+    if ri[0] == 'ok':
+        if k == 'setSel':
+            for ci, nm, loc in locs:
+                if ci == op['c'] and len(byloc[loc]) > 1:
+                    taint.update(x[0] for x in byloc[loc])
+        if dirty_in:
+            if k in ('getSel', 'copy', 'newShared'):
+                taint.add(len(hs) - 1)
+            elif k not in ('indices',):
+                taint.add(op['c'])
+    for nm, mr in (('heap model', hres), ('table model', tres)):
+        if nm == 'table model' and dirty_in:
+            continue
+        if ri != (mr[0], mr[1]):
+            if (ri[0] == 'err' and mr[0] == 'err' and k in ('appendField', 'appendFieldFrom')
+                    and {ri[1], mr[1]} == {'key', 'value'}):
+                DIAG['double_fault_other_exception'] += 1      # two independent guards fail: either exception is fine
+                continue
+            return 'implementation answers %r, %s answers %r' % (ri, nm, mr)
+    if len(hs) != len(snaps) or len(ts) != len(snaps):
+        return 'number of containers: implementation %d, heap model %d, table model %d' % (len(snaps), len(hs), len(ts))
     for ci, (g, h, t) in enumerate(zip(snaps, hs, ts)):
         d = sf.snap_diff(g, h)
         if d:
             return 'container %d, %r: implementation %r, heap model %r' % (ci, d, g[d], h[d])
-        # the plain-table layer takes handed-in arrays by value: it is the reference only while no location is shared
-        d = None if shared else sf.snap_diff(g, t)
+        d = None if ci in taint else sf.snap_diff(g, t)
         if d:
             return 'container %d, %r: implementation %r, table model %r' % (ci, d, g[d], t[d])
     empty = set((ci, c[0]) for ci, g in enumerate(snaps) for c in g['cols'] if c[2] is not None and len(c[2]) == 0)
-    pred = sorted(sorted([v[i], v[j]]) for v in byloc.values() for i in range(len(v)) for j in range(i + 1, len(v))
-                  if (v[i][0], v[i][1]) not in empty)
-    if sorted(sorted(p) for p in share) != pred:
-        return 'memory sharing between columns: implementation %r, heap model predicts %r' % (share[:3], pred[:3])
+    pred = set(p for p in _pairs(byloc.values()) if p[0] not in empty and p[1] not in empty)
+    got = set(tuple(sorted([tuple(a), tuple(b)])) for a, b in share)
+    if not got <= pred:
+        return 'columns share memory that the heap model keeps apart: %r (model: %r)' % (sorted(got - pred)[:3], sorted(pred)[:3])
+    if got != pred:
+        DIAG['less_sharing_than_model'] += 1     # e.g. a method that copies its input: allowed by the property
     return None
 
 
@@ -379,21 +472,21 @@ ORACLES = {'table': o_table, 'corr': o_corr}
 
 # ------------------------------------------------------------------------------------------
 
-def exhaustive(ctx, depth, alphabet):
+def exhaustive(ctx, depth, alphabet, init=None):
     """depth-first enumeration of all sequences over the alphabet up to `depth`, sharing prefixes:
     the implementation state is deep-copied per node, the model state is saved with push/pop.
     One driver batch per first letter (bounds the memory)."""
     bad = []
     for first in range(len(alphabet)):
-        bad += _exh_chunk(ctx, depth, alphabet, first)
+        bad += _exh_chunk(ctx, depth, alphabet, first, init or EXH_INIT)
     return bad
 
 
-def _exh_chunk(ctx, depth, alphabet, first):
+def _exh_chunk(ctx, depth, alphabet, first, init):
     conts = []
     lines = ['reset']
     nodes = []        # (path, op, ri, snaps, share) in the order of the op lines
-    for op in EXH_INIT:
+    for op in init:
         ri = sf.impl_apply(conts, op)
         lines.append(sf.op_line(op))
         nodes.append(((), op, ri, [sf.snap(a) for a in conts], sf.sharing(conts)))
@@ -404,7 +497,7 @@ def _exh_chunk(ctx, depth, alphabet, first):
         for ai, op0 in enumerate(alphabet):
             if not path and ai != first:
                 continue
-            cs = copy.deepcopy(conts)
+            cs = sf.clone(conts)
             op = resolve(op0, len(cs))
             if not sf.legal(cs, op):
                 ctx.count('exhaustive:skipped(set_selection source shares memory with target)')
@@ -422,22 +515,23 @@ def _exh_chunk(ctx, depth, alphabet, first):
     out = [a for a, l in zip(ctx.driver('C16', lines), lines) if l not in ('reset', 'push', 'pop')]
     assert len(out) == len(nodes)
     bad = []
-    tainted = {(): False}
+    tainted = {(): set()}
     for (path, op, ri, snaps, share), ans in zip(nodes, out):
-        taint = [tainted.get(path[:-1], False)] if path else [False]
+        taint = set(tainted.get(path[:-1], set())) if path else set()
+        ctx.count('outcome:%s:%s' % (op['op'], ri[0] if ri[0] == 'ok' else 'err-' + str(ri[1])))
         if not path and first:
             continue
         ctx.count('exhaustive:len=%d' % len(path))
-        ctx.case(key=('exh', len(alphabet), path), desc={'exhaustive_path': [alphabet[i]['op'] for i in path]} if len(path) == depth and ctx.evaluations % 40001 == 0 else None)
+        ctx.case(key=('exh', len(alphabet), init[0]['cols'][0][1]['dt'], path), desc={'exhaustive_path': [alphabet[i]['op'] for i in path]} if len(path) == depth and ctx.evaluations % 40001 == 0 else None)
         d = compare_step(op, ri, snaps, share, ans, taint)
-        tainted[path] = taint[0]
+        tainted[path] = taint
         if d:
             bad.append((path, d))
     return bad
 
 
-def path_case(path, alphabet):
-    return {'ops': EXH_INIT + [alphabet[i] for i in path]}
+def path_case(path, alphabet, init=None):
+    return {'ops': (init or EXH_INIT) + [alphabet[i] for i in path]}
 
 
 def report(ctx, case, d):
@@ -469,19 +563,27 @@ def run(ctx):
                         'no NaN in sort keys; conversions dicts have distinct old names (a Python dict)']
     # ---- bounded-exhaustive histories
     depth = ctx.n(4, 5)
-    alphabet = EXH_ALPHABET
-    bad = [(p, d, alphabet) for p, d in exhaustive(ctx, depth, alphabet)]
+    # quick: 12 of the 15 core letters (the other three are in EXH_FULL); thorough: all 15
+    alphabet = EXH_ALPHABET if ctx.thorough else [EXH_ALPHABET[i] for i in (0, 1, 2, 3, 4, 5, 6, 7, 9, 12, 13, 14)]
+    bad = [(p, d, alphabet, EXH_INIT) for p, d in exhaustive(ctx, depth, alphabet)]
+    # every operation kind (dtype conversion, tidy_up, masks, fresh append_field, copy(), read-only, failing constructor / sort)
+    dfull = ctx.n(3, 4)
+    bad += [(p, d, EXH_FULL, EXH_INIT) for p, d in exhaustive(ctx, dfull, EXH_FULL)]
     ctx.extra['exhaustive_depth'] = depth
     ctx.extra['exhaustive_alphabet'] = len(alphabet)
+    ctx.extra['exhaustive_full_alphabet'] = len(EXH_FULL)
+    ctx.extra['exhaustive_full_depth'] = dfull
     if ctx.thorough:
         # length 6 (the bound of the quantifier) over 9 letters (append, selection, in-place assignment, sort, raising rename, remove, and the three that hand in shared arrays)
         small = [EXH_ALPHABET[i] for i in (0, 3, 5, 6, 7, 9, 12, 13, 14)]
-        bad += [(p, d, small) for p, d in exhaustive(ctx, 6, small)]
+        bad += [(p, d, small, EXH_INIT) for p, d in exhaustive(ctx, 6, small)]
+        # second start (3 rows, bool / float64 columns, constructor with copy=False, empty partner)
+        bad += [(p, d, EXH_FULL, EXH_INIT_B) for p, d in exhaustive(ctx, 3, EXH_FULL, EXH_INIT_B)]
         ctx.extra['exhaustive_depth_small_alphabet'] = 6
         ctx.extra['exhaustive_small_alphabet'] = len(small)
     seen = set()
-    for path, d, alph in sorted(bad, key=lambda x: len(x[0])):
-        case = path_case(path, alph)
+    for path, d, alph, init in sorted(bad, key=lambda x: len(x[0])):
+        case = path_case(path, alph, init)
         r = table_check(case)
         sig = (r[1], r[0]) if r else ('corr', alph[path[-1]]['op'])
         if sig in seen:
@@ -489,7 +591,7 @@ def run(ctx):
         seen.add(sig)
         report(ctx, case, d)
     # ---- random sequences (correspondence + oracle)
-    n_seq = ctx.n(150, 3000)
+    n_seq = ctx.n(110, 3000)
     disagreements = len(bad)
     batch, all_lines = [], []
     for i in range(n_seq):
@@ -506,6 +608,8 @@ def run(ctx):
             r2 = table_check(small) or r
             ctx.violation('table', small, r2[3], signature='C16/%s/%s' % (r2[1], r2[0]))
         lines, recs = corr_prepare(ops)
+        for (op_, ri_, _, _) in recs:
+            ctx.count('outcome:%s:%s' % (op_['op'], ri_[0] if ri_[0] == 'ok' else 'err-' + str(ri_[1])))
         batch.append((case, r, lines, recs, len(all_lines)))
         all_lines += lines
     out = ctx.driver('C16', all_lines)
@@ -516,6 +620,7 @@ def run(ctx):
             if r is None:
                 report(ctx, case, d)
     ctx.extra['correspondence_disagreements'] = disagreements
+    ctx.extra['diagnostics'] = dict(DIAG)
 
 
 MANIFEST = dict(
